@@ -125,6 +125,29 @@ structure TeeBody where
   elseR : TeeRet
   deriving Repr, DecidableEq
 
+/-- conditions of `Stream.__init__(self, *dargs)` -/
+inductive ICond where
+  | lenEq (k : Nat)                     -- `len(dargs) == k`
+  | isIter0                             -- `isinstance(dargs[0], Iterable)`
+  | allIter                             -- `all(isinstance(arg, Iterable) for arg in dargs)`
+  | noneIter                            -- `not any(isinstance(arg, Iterable) for arg in dargs)`
+  deriving Repr, DecidableEq
+
+/-- what `Stream.__init__` stores in `self._data` -/
+inductive IData where
+  | iter0                               -- `iter(dargs[0])`
+  | repeat0                             -- `it.repeat(dargs[0])`
+  | chainIters                          -- `it.chain(*[iter(arg) for arg in dargs])`
+  | cycleArgs                           -- `it.cycle(dargs)`
+  deriving Repr, DecidableEq
+
+/-- the body of `Stream.__init__`: a tree of `if / elif / else` with one statement per arm -/
+inductive ITree where
+  | raise (kind : String)               -- `raise kind(…)`
+  | setData (d : IData)                 -- `self._data = d`
+  | ite (c : ICond) (a b : ITree)
+  deriving Repr, DecidableEq
+
 /-- the regenerated programs -/
 structure Progs where
   take : Body
@@ -442,6 +465,49 @@ def inPlace (body : Body) (via : Bool) (st : St α) (i : Nat) (c : Cnt) (g : α 
         | .error (.eager e) => some (st'', .err e)
         | .ok it' => some (rebind st'' i k it')
 
+/-! ### `Stream.__init__`: the argument list of `Stream(...)` / `append(...)` -/
+
+def evalICond : ICond → List (CArg α) → Bool
+  | .lenEq k, args => args.length == k
+  | .isIter0, a :: _ => a.iterable
+  | .isIter0, [] => false                                   -- IndexError in Python; every use is guarded by `len`
+  | .allIter, args => args.all CArg.iterable
+  | .noneIter, args => args.all (fun a => !a.iterable)
+
+/-- several iterables: every `iter(arg)` is asked when the call is made; the literal lists are chained, at most one
+    existing object may be among them (more: "unsupported" — not in the history model) -/
+def chainItersOf (args : List (CArg α)) : Except String (ALV.C03.Src α) :=
+  match listsOf args with
+  | some xss => .ok (.chain xss)
+  | none =>
+    match splitObj args with
+    | some (pre, j, post) =>
+      match listsOf post with
+      | some yss => .ok (.mixed pre j yss.flatten)
+      | none => .error "unsupported"
+    | none => .error "unsupported"
+
+/-- the data slot in the vocabulary `Src` of the history model (its meaning as an iterator term is `mkSrc`:
+    `iter(list)` = `.src`, `iter(object)` = its iterator / one use, `it.repeat(v)` = `.cyc [v]`, `it.cycle(vs)` = `.cyc vs`,
+    `it.chain(*[iter(a) …])` = `chainSrc` / the `.mixed` chain); `iter` of a non-iterable is a TypeError -/
+def evalIData : IData → List (CArg α) → Except String (ALV.C03.Src α)
+  | .iter0, [.lst xs] => .ok (.list xs)
+  | .iter0, [.obj j] => .ok (.obj j)
+  | .iter0, [.endless per] => .ok (.cyc per)
+  | .iter0, [.scalar _] => .error "TypeError"
+  | .iter0, _ => .error "unmodelled"
+  | .repeat0, [.scalar v] => .ok (.const v)
+  | .repeat0, _ => .error "unmodelled"                      -- an endless repeat of an iterable object: not in the model
+  | .chainIters, args => if args.all CArg.iterable then chainItersOf args else .error "TypeError"
+  | .cycleArgs, args =>
+    if args.all (fun a => !a.iterable) then .ok (.cyc (scalarsOf args)) else .error "unmodelled"
+
+/-- `Stream.__init__(*dargs)` as its program says -/
+def initP : ITree → List (CArg α) → Except String (ALV.C03.Src α)
+  | .raise k, _ => .error k
+  | .setData d, args => evalIData d args
+  | .ite c a b, args => if evalICond c args then initP a args else initP b args
+
 /-! ### `thub` and `StreamTeeHub.__init__` -/
 
 /-- the object under construction by `StreamTeeHub.__init__` -/
@@ -596,6 +662,7 @@ def sigModel : List (String × List (String × Option String)) := [
   ("StreamTeeHub.filter", [("self", none), ("func", none)]),
   ("StreamTeeHub.__init__", [("self", none), ("data", none), ("n", none)]),
   ("thub", [("data", none), ("n", none)]),
+  ("Stream.__init__", [("self", none), ("*dargs", none)]),
   ("lazy_itertools.tee", [("data", none), ("n", some "2")])]
 
 /-- the default of parameter `p` of `q`: `none` = no such parameter, `some none` = required -/
